@@ -355,8 +355,14 @@ def check_document(rep, p, counters, twice):
 CAP = {"quick": 250, "thorough": 2500}  # documents built per family (all of them when fewer are emitted)
 
 
-# the composition family needs cooperating choices (override x material x modification x axial index): few documents, all built
-UNCAPPED_IN_QUICK = ("comp",)
+def _signature(p):
+    """which cooperating choices a document combines (fuel material x override, modifications: scope, key, zero / blank entries,
+    list length): the composition family is sampled so that every combination that occurs is built"""
+    doc = p["doc"]
+    fuels = sorted({(c["mat"], c["iso"]) for b in doc["blocks"] for c in b["comps"] if c["name"] == "fuel"})
+    mods = sorted((m["scope"], m["key"], any(v and v[0] == 0 for v in m["vals"]), any(not v for v in m["vals"]), len(m["vals"]))
+                  for a in doc["asms"] for m in a["mods"])
+    return json.dumps([fuels, mods])
 
 
 def sample_documents(docs, cap, rng):
@@ -364,12 +370,14 @@ def sample_documents(docs, cap, rng):
     out = []
     for fam in FAMILIES:
         mine = [p for p in docs if p["fam"] == fam]
-        if len(mine) <= cap or (fam in UNCAPPED_IN_QUICK and len(mine) <= 1000):
+        if fam == "comp":
+            cap = max(cap, 400)
+        if len(mine) <= cap:
             out += mine
             continue
         classes = {}
         for p in sorted(mine, key=lambda p: rp.skey(p["doc"])):
-            classes.setdefault((p["act"]["n"], p["verdict"], p.get("why", "")), []).append(p)
+            classes.setdefault((p["act"]["n"], p["verdict"], p.get("why", ""), _signature(p) if fam == "comp" else ""), []).append(p)
         for v in classes.values():
             rng.shuffle(v)
         keys = sorted(classes)
@@ -408,7 +416,7 @@ def run_blueprints(rep, tier, seed):
         if not verdicts.get(v):
             raise tlc.MachineryError("vacuous: no emitted document has verdict %s" % v)
     counters = {"built": 0, "refusals": 0, "twice": 0}
-    every = 3 if thorough else 5
+    every = 3 if thorough else 8
     chosen = sample_documents(docs, 120 if _SELFTEST else CAP[tier], random.Random(seed))
     for k, p in enumerate(chosen):
         check_document(rep, p, counters, twice=(k % every == 0))
